@@ -141,6 +141,10 @@ type simpCase struct {
 }
 
 func ratOfFloat(f float64) (num, den string) {
+	if math.IsInf(f, 1) {
+		// epsilon squared overflowed: every finite distance is below it
+		f = math.MaxFloat64
+	}
 	r := new(big.Rat).SetFloat64(f)
 	return r.Num().String(), r.Denom().String()
 }
@@ -215,7 +219,7 @@ func init() {
 				}
 				p = append(p, P{X: x, Y: y})
 			}
-			c := simpCase{Path: p, Eps: []float64{0, 0.5, 1, 1.5, 2, 3, 10}[r.Intn(7)], Closed: r.Bool(), D: r.Chance(0.3)}
+			c := simpCase{Path: p, Eps: []float64{0, 0.5, 1, 1.5, 2, 3, 10, 10, 1e9, 1.4e154, 1e300}[r.Intn(11)], Closed: r.Bool(), D: r.Chance(0.3)}
 			ok, kind, detail := c16Check(o, c)
 			out := runSimp(c, c.Path, c.Eps)
 			col.Eval(fmt.Sprint(c), len(out) < len(c.Path), fmt.Sprintf("eps=%v", c.Eps), fmt.Sprintf("closed=%v", c.Closed), fmt.Sprintf("D=%v", c.D))
